@@ -631,17 +631,65 @@ use crate::verif::sim::*;
 fn app_fragment(r: &mut crate::verif::rng::Rng, seq: u8) -> (Vec<u8>, &'static str) {
     match r.below(16) {
         // functions an outstation executes when they arrive by broadcast
-        9 => (ra::B::request(ra::F_WRITE, seq).range8(80, 1, 7, 7, &[0]).done(), "valid-write-clear-restart"),
-        10 => (ra::B::request(ra::F_WRITE, seq).count8(50, 1, 1, &ra::time48(1_600_000_000_000)).done(), "valid-write-time"),
-        11 => (ra::B::request(*r.pick(&[ra::F_IMMED_FREEZE_NR, ra::F_FREEZE_CLEAR_NR, ra::F_IMMED_FREEZE, ra::F_FREEZE_CLEAR]), seq).all(20, 0).done(), "valid-freeze"),
-        12 => (ra::B::request(ra::F_RECORD_CURRENT_TIME, seq).done(), "valid-record-time"),
-        13 => (ra::B::request(*r.pick(&[ra::F_ENABLE_UNSOL, ra::F_DISABLE_UNSOL]), seq).all(60, 2).all(60, 3).done(), "valid-enable-disable"),
+        9 => (
+            ra::B::request(ra::F_WRITE, seq)
+                .range8(80, 1, 7, 7, &[0])
+                .done(),
+            "valid-write-clear-restart",
+        ),
+        10 => (
+            ra::B::request(ra::F_WRITE, seq)
+                .count8(50, 1, 1, &ra::time48(1_600_000_000_000))
+                .done(),
+            "valid-write-time",
+        ),
+        11 => (
+            ra::B::request(
+                *r.pick(&[
+                    ra::F_IMMED_FREEZE_NR,
+                    ra::F_FREEZE_CLEAR_NR,
+                    ra::F_IMMED_FREEZE,
+                    ra::F_FREEZE_CLEAR,
+                ]),
+                seq,
+            )
+            .all(20, 0)
+            .done(),
+            "valid-freeze",
+        ),
+        12 => (
+            ra::B::request(ra::F_RECORD_CURRENT_TIME, seq).done(),
+            "valid-record-time",
+        ),
+        13 => (
+            ra::B::request(*r.pick(&[ra::F_ENABLE_UNSOL, ra::F_DISABLE_UNSOL]), seq)
+                .all(60, 2)
+                .all(60, 3)
+                .done(),
+            "valid-enable-disable",
+        ),
         14 => {
             let mut d = ra::time48(1_600_000_000_000);
             d.extend_from_slice(&1000u32.to_le_bytes());
-            (ra::B::request(*r.pick(&[ra::F_FREEZE_AT_TIME, ra::F_FREEZE_AT_TIME_NR]), seq).count8(50, 2, 1, &d).all(20, 0).done(), "valid-freeze-at-time")
+            (
+                ra::B::request(
+                    *r.pick(&[ra::F_FREEZE_AT_TIME, ra::F_FREEZE_AT_TIME_NR]),
+                    seq,
+                )
+                .count8(50, 2, 1, &d)
+                .all(20, 0)
+                .done(),
+                "valid-freeze-at-time",
+            )
         }
-        15 => (ra::B::request(*r.pick(&[ra::F_COLD_RESTART, ra::F_WARM_RESTART, ra::F_DELAY_MEASURE]), seq).done(), "valid-no-objects"),
+        15 => (
+            ra::B::request(
+                *r.pick(&[ra::F_COLD_RESTART, ra::F_WARM_RESTART, ra::F_DELAY_MEASURE]),
+                seq,
+            )
+            .done(),
+            "valid-no-objects",
+        ),
         0 => (
             ra::B::request(ra::F_READ, seq).all(60, 1).done(),
             "valid-read",
